@@ -276,3 +276,40 @@ class LanguageClassesFactory:
                 self.json_schema['definitions']['LanguageAssociation']['definitions'][assoc.name] = assoc_json_entry
                 self.json_schema['definitions']['LanguageAssociation']['oneOf'].append(
                     {'$ref': '#/definitions/LanguageAssociation/' + 'definitions/' + assoc.name})
+
+
+# ----------------------------------------------------------------------------------------------- T13
+# C15: "each asset lists exactly the associations in which it or an ancestor takes part": the
+# ancestors' associations first, then every association naming the type on EITHER side.
+def _get_associations_for_asset_type(self, asset_type):
+    associations = []
+    asset = next((a for a in self._lang_spec['assets'] if a['name'] == asset_type), None)
+    if not asset:
+        return associations
+    if asset['superAsset']:
+        associations.extend(self._get_associations_for_asset_type(asset['superAsset']))
+    for assoc in self._lang_spec['associations']:
+        if assoc['leftAsset'] == asset_type or assoc['rightAsset'] == asset_type:
+            associations.append(assoc)
+    return associations
+
+
+# ----------------------------------------------------------------------------------------------- T14-T16
+# C11: a node is compromised by an attacker iff the attacker is in compromised_by; compromise adds the
+# pair to both lists unless present; undo removes it from both lists unless absent.
+def is_compromised_by(self, attacker):
+    return attacker in self.compromised_by
+
+
+def compromise(self, node):
+    if self in node.compromised_by:
+        return
+    node.compromised_by.append(self)
+    self.reached_attack_steps.append(node)
+
+
+def undo_compromise(self, node):
+    if self not in node.compromised_by:
+        return
+    node.compromised_by.remove(self)
+    self.reached_attack_steps.remove(node)
